@@ -11,6 +11,7 @@ int __vf_lock_depth;
 
 /* well-known external typeinfo / vtable symbols: always emitted by the translator */
 extern P g__ZTISt11logic_error[], g__ZTISt9exception[], g__ZTISt13runtime_error[];
+extern P g__ZTVSt11logic_error[], g__ZTVSt9exception[];
 extern P g__ZTVN10__cxxabiv120__si_class_type_infoE[];
 
 static P ti_base(P ti) {
@@ -26,7 +27,16 @@ int __vf_exc_match(P c) {
   for (int i = 0; i < 5 && t; ++i) { if (t == c) return 1; t = ti_base(t); }
   return 0;
 }
-uint32_t __vf_typeid(P ti) { return (uint32_t)(uintptr_t)ti | 1u; }
+/* selector values: 1 = catch-all / cleanup, >= 2 = index of the typeinfo in a small table (no pointer->integer cast:
+ * cbmc's pointer encoding keeps the object number in the high bits, a 32-bit truncation would make all typeinfos equal) */
+static P tid_tab[8]; static uint32_t ntid;
+uint32_t __vf_typeid(P ti) {
+#define T(i) if (i < ntid && tid_tab[i] == ti) return i + 2u;
+  T(0) T(1) T(2) T(3) T(4) T(5) T(6) T(7)
+#undef T
+  if (ntid >= 8) VF_FAIL("too many distinct catch types");
+  tid_tab[ntid] = ti; return (ntid++) + 2u;
+}
 
 void __vf_unreachable(void) { VF_FAIL("unreachable executed"); }
 void __vf_abort(void) { VF_FAIL("abort/terminate"); }
@@ -63,16 +73,24 @@ void x__ZSt20__throw_length_errorPKc(P m) { VF_FAIL("length_error"); }
 void x__ZSt25__throw_bad_function_callv(void) { VF_FAIL("bad_function_call"); }
 void x__ZSt24__throw_out_of_range_fmtPKcz(P m) { VF_FAIL("out_of_range"); }
 uint64_t x_strlen(P s) { uint64_t n = 0; while (s[n]) ++n; return n; }
-/* std::logic_error: {vptr, msg} ; what() returns the construction pointer */
-void x__ZNSt11logic_errorC1EPKc(P a0, P a1) { *(P*)(a0+8) = a1; }
-void x__ZNSt11logic_errorC2EPKc(P a0, P a1) { *(P*)(a0+8) = a1; }
-void x__ZNSt11logic_errorC2ERKNSt7__cxx1112basic_stringIcSt11char_traitsIcESaIcEEE(P a0, P a1) { *(P*)(a0+8) = *(P*)a1; }
-void x__ZNSt11logic_errorC1ERKNSt7__cxx1112basic_stringIcSt11char_traitsIcESaIcEEE(P a0, P a1) { *(P*)(a0+8) = *(P*)a1; }
-void x__ZNSt11logic_errorC2ERKS_(P a0, P a1) { *(P*)(a0+8) = *(P*)(a1+8); }
+/* std::logic_error / std::exception: {vptr, msg}; the vptr points at the modelled vtable emitted by the translator
+ * ([D1, D0, what]); what() returns the construction pointer */
+static void le_init(P a0, P msg) { *(P*)a0 = (P)&g__ZTVSt11logic_error[2]; *(P*)(a0+8) = msg; }
+void x__ZNSt11logic_errorC1EPKc(P a0, P a1) { le_init(a0, a1); }
+void x__ZNSt11logic_errorC2EPKc(P a0, P a1) { le_init(a0, a1); }
+void x__ZNSt11logic_errorC2ERKNSt7__cxx1112basic_stringIcSt11char_traitsIcESaIcEEE(P a0, P a1) { le_init(a0, a1); }
+void x__ZNSt11logic_errorC1ERKNSt7__cxx1112basic_stringIcSt11char_traitsIcESaIcEEE(P a0, P a1) { le_init(a0, a1); }
+void x__ZNSt11logic_errorC2ERKS_(P a0, P a1) { le_init(a0, *(P*)(a1+8)); }
+void x__ZNSt11logic_errorC1ERKS_(P a0, P a1) { le_init(a0, *(P*)(a1+8)); }
 void x__ZNSt11logic_errorD1Ev(P a0) {}
 void x__ZNSt11logic_errorD2Ev(P a0) {}
+void x__ZNSt11logic_errorD0Ev(P a0) { free(a0); }
+P x__ZNKSt11logic_error4whatEv(P a0) { return *(P*)(a0+8); }
 void x__ZNSt9exceptionD2Ev(P a0) {}
 void x__ZNSt9exceptionD1Ev(P a0) {}
+void x__ZNSt9exceptionD0Ev(P a0) { free(a0); }
+static unsigned char std_exception_what[] = "std::exception";
+P x__ZNKSt9exception4whatEv(P a0) { return std_exception_what; }
 /* ---- the one global recursive mutex */
 void x__ZNSt15recursive_mutexC2Ev(P a0) {}
 void x__ZNSt15recursive_mutex4lockEv(P a0) { ++__vf_lock_depth; }
